@@ -33,7 +33,10 @@ def gen(tier, seed):
             dim = rnd.choice((1, 1, 2))
             cases.append({"U": fsl(U), "p": p, "kind": v["kind"], "mults": v["mults"], "scalar": dim == 1,
                           "P": pts_json(rand_points(rnd, n, dim)),
-                          "W": fsl(rand_weights(rnd, n)) if rational else None})
+                          "W": fsl(rand_weights(rnd, n)) if rational else None,
+                          # a representation that is NOT minimal (degree raised by the implementation first): the
+                          # derivative must not tidy up its operand
+                          "elevate": (rnd.choice((1, 2)) if (not rational and p <= 2 and n <= 5 and rnd.random() < 0.5) else 0)})
     return cases
 
 
@@ -44,6 +47,8 @@ def impl(case):
     curve = Curve(nums(case["U"]), points(case["P"], case["scalar"]))
     if case["W"] is not None:
         curve.weights = nums(case["W"])
+    if case.get("elevate"):
+        curve.degree_increase(case["elevate"])
     before = curve_state(curve)
     r = capture(lambda: curve_state(Derivate(curve)))
     return {"c": before, "r": r, "after": curve_state(curve)}
@@ -60,7 +65,8 @@ def emit(case, out):
 
 def describe(case):
     return {"degree": case["p"], "kind": case["kind"], "n_interior": len(case["mults"]),
-            "full_mult": any(m == case["p"] + 1 for m in case["mults"]), "rational": case["W"] is not None}
+            "full_mult": any(m == case["p"] + 1 for m in case["mults"]), "rational": case["W"] is not None,
+            "elevated": case.get("elevate", 0)}
 
 
 def nontrivial(case):
